@@ -266,6 +266,45 @@ func main() {
 			}
 		}
 	}
+	// the duplicate-id / endpoint resolver of the preflight: created inside the loop over graphs (state is a
+	// function of the current graph only) or shared between graphs
+	resolverScope := "missing"
+	if fn := p.funcs[delegates]; fn != nil && fn.Body != nil {
+		inLoop, outside := 0, 0
+		for _, s := range fn.Body.List {
+			outer, ok := s.(*ast.RangeStmt)
+			isGraphs := ok && strings.HasSuffix(exprString(outer.X), ".Graphs")
+			calls(s, func(c *ast.CallExpr, name string, selector bool) {
+				if !selector && name == "newNodeIDResolver" {
+					if isGraphs {
+						inLoop++
+					} else {
+						outside++
+					}
+				}
+			})
+			if isGraphs { // must be a direct statement of the loop body, not buried in the per-file loop
+				direct := 0
+				for _, s2 := range outer.Body.List {
+					if as, ok := s2.(*ast.AssignStmt); ok && as.Tok == token.DEFINE && len(as.Rhs) == 1 {
+						if c, ok := as.Rhs[0].(*ast.CallExpr); ok && exprString(c.Fun) == "newNodeIDResolver" {
+							direct++
+						}
+					}
+				}
+				if direct != inLoop {
+					inLoop = -1
+				}
+			}
+		}
+		switch {
+		case inLoop == 1 && outside == 0:
+			resolverScope = "per-graph"
+		case outside > 0:
+			resolverScope = "shared"
+		}
+	}
+	fmt.Fprintf(&out, "/-- where the preflight creates its node-id resolver -/\ndef resolverScope : String := %q\n", resolverScope)
 	fmt.Fprintf(&out, "def verifyDelegate : String := %q\ndef verifyRangesGraphs : Bool := %s\ndef verifyRangesFiles : Bool := %s\ndef verifyNodeIntegrity : Bool := %s\ndef verifyEdgeIntegrity : Bool := %s\n",
 		delegates, leanBool(rangesGraphs), leanBool(rangesFiles), leanBool(nodeTrue), leanBool(edgeTrue))
 	checksumGuard := false
@@ -357,6 +396,48 @@ func main() {
 	// the byte-count test is guarded by `expectedCompressedBytes >= 0 &&` (validate refuses negative sizes)
 	fmt.Fprintf(&out, "def bytesGuard : String := %q\n", cmpFact("verifyChecksumValues", "expectedCompressedBytes", "0"))
 	fmt.Fprintf(&out, "def validateBytesNonneg : String := %q\n\n", cmpFact("Manifest.validate", "fileEntry.CompressedBytes", "0"))
+
+	// ---- 2c. validateExtractedCollection: which loop carries the checksum guard, under which key the tracked
+	// file is looked up, whether the loop can skip an entry
+	extractedRange, extractedKey, extractedSkips := "missing", "missing", false
+	extractedArgs := []string{}
+	if fn := p.funcs["validateExtractedCollection"]; fn != nil && fn.Body != nil {
+		var walk func(list []ast.Stmt, ranges []string)
+		walk = func(list []ast.Stmt, ranges []string) {
+			for _, st := range list {
+				if rs, ok := st.(*ast.RangeStmt); ok {
+					walk(rs.Body.List, append(append([]string{}, ranges...), exprString(rs.X)))
+					continue
+				}
+				if name, call := guardCall(st); name == "verifyChecksumValues" {
+					extractedRange = strings.Join(ranges, ">")
+					for _, a := range call.Args {
+						extractedArgs = append(extractedArgs, exprString(a))
+					}
+					// siblings of the guard: the lookup and any `continue`
+					for _, sib := range list {
+						if as, ok := sib.(*ast.AssignStmt); ok && len(as.Rhs) == 1 {
+							if ix, ok := as.Rhs[0].(*ast.IndexExpr); ok && exprString(ix.X) == "files" && len(as.Lhs) >= 1 && exprString(as.Lhs[0]) == "actual" {
+								extractedKey = exprString(ix.Index)
+								if len(as.Lhs) > 1 {
+									extractedKey += ",comma-ok"
+								}
+							}
+						}
+						ast.Inspect(sib, func(x ast.Node) bool {
+							if b, ok := x.(*ast.BranchStmt); ok && (b.Tok == token.CONTINUE || b.Tok == token.BREAK || b.Tok == token.GOTO) {
+								extractedSkips = true
+							}
+							return true
+						})
+					}
+				}
+			}
+		}
+		walk(fn.Body.List, nil)
+	}
+	fmt.Fprintf(&out, "/-- validateExtractedCollection: ranges enclosing the checksum guard, lookup key of the tracked file, skip statements, guard arguments -/\ndef extractedRange : String := %q\ndef extractedKey : String := %q\ndef extractedSkips : Bool := %s\ndef extractedArgs : List String := %s\n\n",
+		extractedRange, extractedKey, leanBool(extractedSkips), leanList(extractedArgs))
 
 	// ---- 3. extraction
 	flags := []string{}
